@@ -1,6 +1,7 @@
 import ComposeVerif.Lemmas.AuditCmd
 import ComposeVerif.Lemmas.Graph
 import ComposeVerif.Lemmas.Equiv
+import ComposeVerif.Lemmas.Post
 import ComposeVerif.Neg.C10
 import ComposeVerif.Lemmas.Consistency
 import ComposeVerif.Lemmas.Validate
@@ -214,6 +215,37 @@ theorem consistentB_iff (p : Proj) (hnd : p.enabled.Nodup) : consistentB p = tru
     rw [← checkSecret_iff]
     simp
   rw [h1, h2, and_assoc]
+
+/-! ## the project that is returned -/
+
+/-- when `graph.CheckCycle` accepts, the dependency graph of the project *as it leaves the call* is acyclic
+(no hypothesis on the shape, any iteration order) -/
+theorem accepted_returned_acyclic (p : Proj) (hnd : p.enabled.Nodup) (h : checkCycleProj p = none) :
+    Acyclic (postState p) := by
+  unfold checkCycleProj at h
+  cases hg : newGraph p with
+  | error e => rw [hg] at h; cases h
+  | ok g =>
+    rw [hg] at h
+    simp only [guard_none] at h
+    intro v w
+    have hw : Walk g.E v v := w.mono (postState_edges_in_graph p hnd g hg)
+    have := (hasCycle_iff g (newGraph_closed p hnd g hg)).mpr ⟨v, hw⟩
+    rw [this] at h; cases h
+
+/-- **accepted ⇒ the returned project is consistent** — full strength: every project, every iteration order.
+(`postState` = the project after `checkConsistency`: `deploy.replicas` aligned with `scale`, and the self
+dependencies `newGraph` deleted.)  This is the first sentence of the property; the defect of `newGraph`
+only breaks the converse sentence (`Neg/C10.lean`). -/
+theorem accepted_returned_consistent (p : Proj) (hnd : p.enabled.Nodup) (h : checkConsistency p = none) :
+    ConsistentFull (postState p) := by
+  have hr := consistency_sound_rules p h
+  refine ⟨?_, ?_, accepted_returned_acyclic p hnd ((checkConsistency_none_iff p).mp h).2.2⟩
+  · intro e he r
+    simp only [postState, List.mem_map] at he
+    obtain ⟨e0, he0, rfl⟩ := he
+    exact holds_post p e0.1 e0.2 r (hr.1 e0 he0 r)
+  · exact hr.2
 
 /-! ## every iteration order -/
 
